@@ -278,11 +278,10 @@ def moduleOf (s : Schema) : PyModule :=
 /-! ### the property's reading (`Spec.PyMirror`) -/
 namespace Spec
 
-/-- Python keywords that are legal EXPRESS identifiers (all other Python keywords are reserved words of EXPRESS, and
-EXPRESS identifiers are case-folded to lower case, so `None/True/False` cannot occur) -/
-def pyKeywords : List String :=
-  ["assert", "async", "await", "break", "class", "continue", "def", "del", "elif", "except", "finally", "global",
-   "import", "is", "lambda", "nonlocal", "pass", "raise", "try", "yield"]
+/-- the Python keywords an EXPRESS schema can use as identifiers: Python's own hard keywords (regenerated from the
+interpreter, `keyword.kwlist`) that are not reserved words of stepcode's EXPRESS scanner (regenerated from lexact.c).
+Independent of exp2python's `keyword_list[]`. -/
+def pyKeywords : List String := pythonHardKeywords.filter (fun k => !(expressReserved.contains k))
 
 /-- attributes of an entity in declaration order: supertypes (recursively, as declared) then own; an ancestor reached
 along several paths appears once per path here -/
